@@ -1,11 +1,13 @@
 package main
 
 import (
+	"bytes"
 	"encoding/json"
 	"flag"
 	"reflect"
 	"sort"
 	"strings"
+	"sync/atomic"
 	"time"
 
 	ucfg "github.com/elastic/go-ucfg"
@@ -200,6 +202,7 @@ func varErrClass(err error) string {
 
 type readObs struct {
 	Name  string                 `json:"name"`
+	SF    map[string]interface{} `json:"sf"` // Unpack into a string-typed struct field (the value is evaluated twice in one call)
 	Str   map[string]interface{} `json:"str"`
 	Typed map[string]interface{} `json:"typed"`
 	Has   map[string]interface{} `json:"has"`
@@ -235,6 +238,13 @@ func observeWorld(w *vworld, withFlat bool, wo vworldOpts) (o varObs) {
 			r.Typed = map[string]interface{}{"err": varErrClass(err)}
 		} else {
 			r.Typed = map[string]interface{}{"ok": canonGo(st.Elem().Field(0).Interface())}
+		}
+		sf := reflect.New(reflect.StructOf([]reflect.StructField{{Name: "F", Type: reflect.TypeOf(""),
+			Tag: reflect.StructTag(`config:"` + n + `"`)}}))
+		if err := c.Unpack(sf.Interface(), opts...); err != nil {
+			r.SF = map[string]interface{}{"err": varErrClass(err)}
+		} else {
+			r.SF = map[string]interface{}{"ok": sf.Elem().Field(0).String()}
 		}
 		if ok, err := c.Has(n, -1, opts...); err != nil {
 			r.Has = map[string]interface{}{"err": varErrClass(err)}
@@ -407,14 +417,19 @@ func varReplay(args []string) int {
 	fs := flag.NewFlagSet("varexp", flag.ExitOnError)
 	seed := fs.Int64("seed", 1, "seed")
 	splitMerge := fs.Bool("split-merge", false, "build every world by two Merge calls (late binding)")
+	every := fs.Int("every", 1, "use every n-th world only")
 	fs.Parse(args)
 	rep := newReporter("varexp")
 	pool := newIsoPool("varexp", 24, 20*time.Second)
 	defer pool.close()
+	var nth int64
 	runCases(func(raw []byte, rep *reporter) {
 		var c varCase
 		if err := json.Unmarshal(raw, &c); err != nil {
 			rep.infra("case: " + err.Error())
+			return
+		}
+		if atomic.AddInt64(&nth, 1)%int64(*every) != 0 {
 			return
 		}
 		rep.begin(raw)
@@ -451,6 +466,7 @@ func varReplay(args []string) int {
 			rep.skip()
 			rep.class("ambiguous-alt-on-active-name")
 		}
+		hasResolver := bytes.Contains(c.W, []byte(`"res":[{`)) || bytes.Contains(c.W, []byte(`"res":[[`))
 		ok := true
 		for i, r := range c.Reads {
 			if c.Amb {
@@ -463,6 +479,36 @@ func varReplay(args []string) int {
 			ok = rep.classify(raw, r.Str.Ideal, r.Str.Alts, eqText(g.Str), func() interface{} {
 				return map[string]interface{}{"String": r.Name, "got": g.Str}
 			}, "string") && ok
+			// a string-typed field: the text String() gives; an absent setting leaves the field ""; a
+			// sub-config is an error (of whatever class)
+			sfEq := func(exp json.RawMessage) bool {
+				var e struct {
+					Ok  *string `json:"ok"`
+					Err string  `json:"err"`
+				}
+				if json.Unmarshal(exp, &e) != nil {
+					return false
+				}
+				if e.Ok != nil {
+					s, isOk := g.SF["ok"].(string)
+					return isOk && s == *e.Ok
+				}
+				if e.Err == "missing" {
+					if s, isOk := g.SF["ok"].(string); isOk {
+						return s == "" && r.Name == "m" // the only absent NAME of the universe: the field is left alone
+					}
+				}
+				ge, isErr := g.SF["err"].(string)
+				return isErr && (ge == e.Err || e.Err == "type" || e.Err == "object")
+			}
+			// (inside a reference cycle that a RESOLVER absorbs, the inner evaluation leaves the resolver's
+			// answer in the per-call cache and the second evaluation of the same call is served from it -
+			// the shared-cache limit of DESIGN.md 0.7; cycles absorbed by a default operator are compared)
+			if !(c.Cyc && hasResolver) {
+				ok = rep.classify(raw, r.Str.Ideal, r.Str.Alts, sfEq, func() interface{} {
+					return map[string]interface{}{"Unpack string field": r.Name, "got": g.SF}
+				}, "string-field") && ok
+			}
 			ok = rep.classify(raw, r.Typed.Ideal, r.Typed.Alts, eqTyped(g.Typed), func() interface{} {
 				return map[string]interface{}{"Unpack field": r.Name, "got": g.Typed}
 			}, "typed") && ok
